@@ -185,6 +185,7 @@ JM = [mut("separator-after-every-part", "string.c", "        if (i) {\n         
           "        janet_bytes_view(parts.items[i], &chunk, &chunklen);\n        safe_memcpy(out, chunk, chunklen);\n        out += chunklen;\n        {\n            safe_memcpy(out, joiner.bytes, joiner.len);\n            out += joiner.len;\n        }", "memcpy model|postcondition"),
       mut("length-check-dropped", "string.c", "        if (finallen > INT32_MAX)\n            janet_panic(\"result string too long\");\n", "", "postcondition|conversion|janet_string_begin precondition|memcpy model"),
       mut("type-check-dropped", "string.c", "        if (!janet_bytes_view(parts.items[i], &chunk, &chunklen)) {\n            janet_panicf(\"item %d of parts is not a byte sequence, got %v\", i, parts.items[i]);\n        }", "        janet_bytes_view(parts.items[i], &chunk, &chunklen);", "postcondition|memcpy model|pointer")]
+JM_INIT = mut("length-starts-at-one", "string.c", "    int64_t finallen = 0;", "    int64_t finallen = 1;", "postcondition")
 for n in (0, 1, 2, 3):
     unit("lib.string.join.n%d" % n,
          "string/join with %d part(s): arity 1..2; every element of parts must be a byte sequence (else raises); returns a NEW NUL-terminated string = part 0 ++ sep ++ part 1 ++ ... (separator between, not after; none without sep) of length sum(len part) + (n - 1) * len sep computed without int32 overflow - raises instead of exceeding INT32_MAX; every memcpy inside the new block and its source; inputs not modified" % n,
@@ -192,7 +193,98 @@ for n in (0, 1, 2, 3):
          unwindset={"cfun_string_join_wrapped_for_contract_checking.0": 5, "cfun_string_join_wrapped_for_contract_checking.1": 5, "janet_bytes_view.0": 5, "h_string_join.0": 5, "h_string_join.1": 5, "h_string_join.2": 5},
          assumes=SA + [MM, "janet_getindexed yields the harness-built view of parts; janet_bytes_view is a pure function of the element: equal elements have the same view, an element may be no byte sequence"],
          **dict(J, defines=J["defines"] + ["-DLIB_NPARTS=%d" % n]), tier=("quick" if n < 3 else "thorough"), timeout=(120 if n < 3 else 600),
-         mutants=(JM if n >= 2 else [JM[2]] if n == 1 else [mut("no-room-for-nul", "string.c", "JanetStringHead *head = janet_gcalloc(JANET_MEMORY_STRING, sizeof(JanetStringHead) + (size_t) length + 1);\n    head->length = length;", "JanetStringHead *head = janet_gcalloc(JANET_MEMORY_STRING, sizeof(JanetStringHead) + (size_t) length + 1);\n    head->length = length + 1;", "x")]))
+         mutants=(JM if n >= 2 else [JM[2], JM_INIT] if n == 1 else [JM_INIT]))
+
+# ------------------------------------------------------------------ buffer.c: the remaining registered C functions
+ALLOC = ("realloc model (seq_common.h): fails or returns a fresh block of n bytes, frees the old block, "
+         "keeps the element at the ghost index; all other content arbitrary")
+B = dict(src=["buffer.c"], link=["wrap.c"], harness=["lib_buffer.c"], defines=["-DSEQ_ELEM_BYTES", "-DSEQ_TRACK_REALLOC"],
+         replace_calls=["memcpy:lib_memcpy"], unwindset={"lib_memcpy.0": 9}, props=["C17", "C04"])
+BA = [ALLOC, "memcpy model (seq_common.h; copies of at most 8 bytes are carried out exactly): ranges valid and disjoint - counted obligations; pointwise effect on the ghost byte",
+      "capi.c getters are stubs: slot 0 is a well-formed buffer; integer / unsigned getters return the slot's low 16 / 32 / 64 bits (arbitrary but fixed per slot), janet_getnumber the slot's double; a byte-sequence slot is the buffer itself or a separate readable block; each asserts slot index < argc; janet_arity/janet_fixarity return only for an accepted argc",
+      "janet_gcalloc returns a fresh block; janet_gcpressure has no effect on the buffer"]
+ORDER = "janet_getkeyword / janet_cstrcmp stubs: the order argument is :le, :be, :native or another keyword; janet_cstrcmp asserts it is asked about the literals \"le\", \"be\", \"native\"; configuration is little endian (JANET_LITTLE_ENDIAN)"
+def W(fn): return fn + "_wrapped_for_contract_checking"
+for nm, nb, getter, val, muts in [
+    ("uint16", 2, "janet_getuinteger16", "a 16 bit unsigned integer",
+     [mut("be-not-reversed", "buffer.c", "    } else if (!janet_cstrcmp(order_kw, \"be\")) {\n#if JANET_LITTLE_ENDIAN\n        return 1;\n#endif", "    } else if (!janet_cstrcmp(order_kw, \"be\")) {\n#if JANET_BIG_ENDIAN\n        return 1;\n#endif", "postcondition"),
+      mut("swap-lost-byte", "buffer.c", "        uint8_t temp = bytes[1];\n        bytes[1] = bytes[0];\n        bytes[0] = temp;", "        bytes[1] = bytes[0];\n        bytes[0] = bytes[1];", "postcondition")]),
+    ("uint32", 4, "janet_getuinteger", "a 32 bit unsigned integer",
+     [mut("reverse-swaps-wrong-pair", "buffer.c", "    temp = bytes[2];\n    bytes[2] = bytes[1];\n    bytes[1] = temp;\n}\n\nstatic void reverse_u64", "    temp = bytes[2];\n    bytes[2] = bytes[0];\n    bytes[0] = temp;\n}\n\nstatic void reverse_u64", "postcondition"),
+      mut("le-reversed", "buffer.c", "    if (!janet_cstrcmp(order_kw, \"le\")) {\n#if JANET_BIG_ENDIAN", "    if (!janet_cstrcmp(order_kw, \"le\")) {\n#if JANET_LITTLE_ENDIAN", "postcondition")]),
+    ("uint64", 8, "janet_getuinteger64", "a 64 bit unsigned integer",
+     [mut("reverse-incomplete", "buffer.c", "    temp = bytes[4];\n    bytes[4] = bytes[3];\n    bytes[3] = temp;\n}", "}", "postcondition")]),
+    ("float32", 4, "janet_getnumber", "a number converted to a 32 bit float",
+     [mut("pushes-the-double", "buffer.c", "    float data = (float) janet_getnumber(argv, 2);", "    double data = janet_getnumber(argv, 2);", "postcondition|memcpy model|pointer")]),
+    ("float64", 8, "janet_getnumber", "a number (64 bit float)",
+     [mut("reverse-dropped", "buffer.c", "    double data = janet_getnumber(argv, 2);\n    uint8_t bytes[sizeof(data)];\n    memcpy(bytes, &data, sizeof(bytes));\n    if (reverse)\n        reverse_u64(bytes);", "    double data = janet_getnumber(argv, 2);\n    uint8_t bytes[sizeof(data)];\n    memcpy(bytes, &data, sizeof(bytes));", "postcondition")])]:
+    fn = "cfun_buffer_push_" + nm
+    extra = ["domain restriction: data is NaN, infinite or within the float range (a finite double beyond it overflows in (float) x - C99 6.3.1.5; unit lib.buffer.push_float32.anydouble keeps that obligation)"] if nm == "float32" else []
+    unit("lib.buffer.push_" + nm,
+         "buffer/push-%s, every buffer size: arity 3; order must be :le, :be or :native (else raises); data is fetched as %s; appends exactly its %d bytes - least significant byte first for :le and :native (little-endian configuration), most significant first for :be; prefix unchanged; raises instead of exceeding INT32_MAX; foreign memory never reallocated; returns buffer" % (nm, val, nb),
+         "h_buffer_push_" + nm, cf(fn), assumes=BA + [ORDER] + extra, mutants=muts, functions=[fn, "should_reverse_bytes", "janet_buffer_push_bytes"], **B)
+unit("lib.buffer.push_float32.anydouble", "buffer/push-float32, ALL numbers: the conversion of data to float is defined",
+     "h_buffer_push_float32", cf("cfun_buffer_push_float32"), tier="thorough",
+     disabled_reason="fails on the pinned tree (cfun_buffer_push_float32 overflow obligation 'arithmetic overflow on floating-point typecast'): (float) x for a finite double beyond FLT_MAX is undefined by C99 6.3.1.5; every IEEE 754 / Annex F implementation yields an infinity - (buffer/push-float32 @\"\" :le 1e300) -> @\"\\0\\0\\x80\\x7F\" - so no observable misbehaviour",
+     assumes=BA + [ORDER], **dict(B, defines=B["defines"] + ["-DLIB_F32_ANY_DOUBLE"]),
+     mutants=[mut("pushes-the-double", "buffer.c", "    float data = (float) janet_getnumber(argv, 2);", "    double data = janet_getnumber(argv, 2);", "postcondition|memcpy model|pointer")])
+unit("lib.buffer.clear", "buffer/clear: arity 1; length becomes 0, capacity and block kept, no reallocation, nothing else written; returns buffer",
+     "h_buffer_clear", cf("cfun_buffer_clear"), assumes=BA, **B,
+     mutants=[mut("clears-capacity", "buffer.c", "    JanetBuffer *buffer = janet_getbuffer(argv, 0);\n    buffer->count = 0;\n    return argv[0];", "    JanetBuffer *buffer = janet_getbuffer(argv, 0);\n    buffer->capacity = 0;\n    return argv[0];", "postcondition|assigns")])
+unit("lib.buffer.trim", "buffer/trim, every size: arity 1; raises for a buffer over foreign memory; capacity becomes max(length, 4) when it exceeded the length, else stays; length and every byte unchanged; old block released exactly once; returns buffer",
+     "h_buffer_trim", cf("cfun_buffer_trim"), assumes=BA, **B,
+     mutants=[mut("capacity-not-updated", "buffer.c", "        buffer->data = newData;\n        buffer->capacity = newcap;", "        buffer->data = newData;", "postcondition"),
+              mut("foreign-check-dropped", "buffer.c", "    JanetBuffer *buffer = janet_getbuffer(argv, 0);\n    janet_buffer_can_realloc(buffer);\n    if (buffer->count < buffer->capacity) {", "    JanetBuffer *buffer = janet_getbuffer(argv, 0);\n    if (buffer->count < buffer->capacity) {", "postcondition"),
+              mut("realloc-below-length", "buffer.c", "        uint8_t *newData = janet_realloc(buffer->data, newcap);", "        uint8_t *newData = janet_realloc(buffer->data, newcap - 1);", "postcondition")])
+unit("lib.buffer.new", "buffer/new, every capacity argument (negative included): arity 1; returns a NEW well-formed empty buffer with room for max(capacity, 4) bytes",
+     "h_buffer_new", cf("cfun_buffer_new"), assumes=BA + ["malloc does not fail (CBMC default)"], **B,
+     mutants=[mut("minimum-capacity-dropped", "buffer.c", "    if (capacity < 4) capacity = 4;\n", "", "postcondition|conversion|overflow")])
+fn = "cfun_buffer_frombytes"
+unit("lib.buffer.frombytes", "buffer/from-bytes, every argument count: every argument is fetched as an integer (slot index below argc); returns a NEW well-formed buffer of argc bytes, byte i == argument i mod 256 (documented: coerced to 0-255); writes inside the new block",
+     "h_buffer_frombytes", cf(fn), assumes=BA + ["malloc does not fail (CBMC default)"], **B,
+     loops={fn: [loop("i >= 0 && i <= argc && ((g_j >= 0 && g_j < i) ==> (unsigned long)buffer->data[g_j] == (argv[g_j].u64 & 0xFFul))",
+                      "i, __CPROVER_object_whole(buffer->data)", "argc - i", smap(fn, i="1::i", argc="argc", argv="argv", buffer="1::buffer"))]},
+     loop_counts={fn: 1},
+     mutants=[mut("count-not-set", "buffer.c", "        buffer->data[i] = c & 0xFF;\n    }\n    buffer->count = argc;", "        buffer->data[i] = c & 0xFF;\n    }", "postcondition"),
+              mut("loop-one-too-far", "buffer.c", "    for (i = 0; i < argc; i++) {\n        int32_t c = janet_getinteger(argv, i);\n        buffer->data[i] = c & 0xFF;", "    for (i = 0; i <= argc; i++) {\n        int32_t c = janet_getinteger(argv, i);\n        buffer->data[i] = c & 0xFF;", "slot index|loop_invariant|assigns|pointer")])
+PB = dict(B, defines=B["defines"] + ["-DLIB_MAXARGC=4"], cbmc=["--sat-solver", "cadical"])
+unit("lib.buffer.push_byte", "buffer/push-byte, every buffer size: arity >= 1; appends the low byte of every x in order (each fetched as an integer, slot index below argc); prefix unchanged; raises instead of exceeding INT32_MAX; foreign memory never reallocated; returns buffer",
+     "h_buffer_u8", cf("cfun_buffer_u8"), cls="bounded", bound="at most 3 pushed values (argc <= 4, the argument loop reallocates and is unwound); buffer size unbounded",
+     assumes=BA, **dict(PB, unwindset=dict(B["unwindset"], **{W("cfun_buffer_u8") + ".0": 5})), functions=["cfun_buffer_u8", "janet_buffer_push_u8", "janet_buffer_extra"],
+     mutants=[mut("starts-at-slot-0", "buffer.c", "    for (i = 1; i < argc; i++) {\n        janet_buffer_push_u8(buffer, (uint8_t)(janet_getinteger(argv, i) & 0xFF));", "    for (i = 0; i < argc; i++) {\n        janet_buffer_push_u8(buffer, (uint8_t)(janet_getinteger(argv, i) & 0xFF));", "postcondition"),
+              mut("reads-past-argc", "buffer.c", "    for (i = 1; i < argc; i++) {\n        janet_buffer_push_u8(buffer, (uint8_t)(janet_getinteger(argv, i) & 0xFF));", "    for (i = 1; i <= argc; i++) {\n        janet_buffer_push_u8(buffer, (uint8_t)(janet_getinteger(argv, i) & 0xFF));", "slot index|postcondition|unwind")])
+WORD_M = [mut("range-check-dropped", "buffer.c", "        if (word != number)\n            janet_panicf(\"cannot convert %v to machine word\", argv[i]);\n", "", "postcondition"),
+          mut("pushes-16-bits", "buffer.c", "        janet_buffer_push_u32(buffer, word);", "        janet_buffer_push_u16(buffer, word);", "postcondition|conversion")]
+unit("lib.buffer.push_word", "buffer/push-word, every buffer size: arity >= 1; every x must be a number equal to an integer in [0, 2^32) (else raises); appends its 4 bytes least significant first, in argument order; prefix unchanged; raises instead of exceeding INT32_MAX; foreign memory never reallocated; returns buffer",
+     "h_buffer_word", cf("cfun_buffer_word"), cls="bounded", bound="at most 3 pushed values (argc <= 4, the argument loop reallocates and is unwound); buffer size unbounded",
+     assumes=BA + ["domain restriction -1 < x < 2^32 for numeric arguments: outside it (and for NaN) the conversion (uint32_t) x is undefined (unit lib.buffer.push_word.anydouble keeps that obligation)"],
+     **dict(PB, unwindset=dict(B["unwindset"], **{W("cfun_buffer_word") + ".0": 5})), functions=["cfun_buffer_word", "janet_buffer_push_u32", "janet_buffer_extra"], mutants=WORD_M)
+unit("lib.buffer.push_word.anydouble", "buffer/push-word, ALL numbers incl. negative ones, NaN, infinities and values >= 2^32: the double -> uint32 conversion is defined",
+     "h_buffer_word", cf("cfun_buffer_word"), cls="bounded", bound="at most 3 pushed values", tier="thorough",
+     disabled_reason="fails on the pinned tree (cfun_buffer_word overflow obligation on `(uint32_t) number`): undefined by C99 6.3.1.4 for NaN and values outside (-1, 2^32); on x86-64 / AArch64 the converted value differs from the argument, so `word != number` raises 'cannot convert ... to machine word' as documented - (buffer/push-word @\"\" -1), 4294967296, math/nan all raise; no observable misbehaviour",
+     assumes=BA, **dict(PB, defines=PB["defines"] + ["-DLIB_WORD_ANY_DOUBLE"], unwindset=dict(B["unwindset"], **{W("cfun_buffer_word") + ".0": 5})), mutants=WORD_M[:1])
+PS = dict(B, cbmc=["--sat-solver", "cadical"])
+PUSHB = "at most 2 pushed arguments (argc <= 3, the argument loop reallocates and is unwound); buffer size and byte-sequence length unbounded"
+SELFDOM = "domain restriction: the buffer is pushed onto itself only while shorter than 1 GiB (`buffer->count + view.len` overflows int32 otherwise; units str.cfun.buffer.push_at.selfhuge / lib.buffer.push_string.selfhuge)"
+unit("lib.buffer.push_string", "buffer/push-string, every buffer size: arity >= 1; the byte sequences are appended in order - the buffer itself contributes its content at that moment (no use of a stale block after growth); exact new length; prefix unchanged; raises instead of exceeding INT32_MAX; memcpy ranges valid and disjoint; foreign memory never reallocated; returns buffer",
+     "h_buffer_chars", cf("cfun_buffer_chars"), cls="bounded", bound=PUSHB, tier="thorough", timeout=600,
+     assumes=BA + [SELFDOM], **dict(PS, unwindset=dict(B["unwindset"], **{W("cfun_buffer_chars") + ".0": 4})), functions=["cfun_buffer_chars", "janet_buffer_push_bytes", "janet_buffer_ensure", "janet_buffer_extra"],
+     mutants=[mut("stale-view-after-growth", "buffer.c", "            janet_buffer_ensure(buffer, buffer->count + view.len, 2);\n            view.bytes = buffer->data;\n        }\n        janet_buffer_push_bytes(buffer, view.bytes, view.len);\n    }\n    return argv[0];\n}\n\nstatic int should_reverse_bytes",
+                  "            janet_buffer_ensure(buffer, buffer->count + view.len, 2);\n        }\n        janet_buffer_push_bytes(buffer, view.bytes, view.len);\n    }\n    return argv[0];\n}\n\nstatic int should_reverse_bytes", "memcpy model|pointer|postcondition|deallocated"),
+              mut("self-push-not-reserved", "buffer.c", "        if (view.bytes == buffer->data) {\n            janet_buffer_ensure(buffer, buffer->count + view.len, 2);\n            view.bytes = buffer->data;\n        }\n        janet_buffer_push_bytes(buffer, view.bytes, view.len);\n    }\n    return argv[0];\n}\n\nstatic int should_reverse_bytes",
+                  "        janet_buffer_push_bytes(buffer, view.bytes, view.len);\n    }\n    return argv[0];\n}\n\nstatic int should_reverse_bytes", "memcpy model|pointer|postcondition|deallocated")])
+unit("lib.buffer.push_string.selfhuge", "buffer/push-string, ALL sizes: no signed overflow when a buffer is pushed onto itself",
+     "h_buffer_chars", cf("cfun_buffer_chars"), cls="bounded", bound=PUSHB, tier="thorough", timeout=600,
+     disabled_reason="fails on the pinned tree (cfun_buffer_chars overflow obligation on `buffer->count + view.len`): for a buffer of >= 1 GiB pushed onto itself the int32 sum overflows before janet_buffer_extra's 64-bit check (same pattern as buffer_push_impl, str.cfun.buffer.push_at.selfhuge); benign with wrap-around arithmetic (janet_buffer_ensure returns for the negative capacity, janet_buffer_push_bytes then raises 'buffer overflow')",
+     assumes=BA, **dict(PS, defines=B["defines"] + ["-DLIB_PUSH_SELF_ANY"], unwindset=dict(B["unwindset"], **{W("cfun_buffer_chars") + ".0": 4})),
+     mutants=[mut("self-push-not-reserved", "buffer.c", "        if (view.bytes == buffer->data) {\n            janet_buffer_ensure(buffer, buffer->count + view.len, 2);\n            view.bytes = buffer->data;\n        }\n        janet_buffer_push_bytes(buffer, view.bytes, view.len);\n    }\n    return argv[0];\n}\n\nstatic int should_reverse_bytes",
+                  "        janet_buffer_push_bytes(buffer, view.bytes, view.len);\n    }\n    return argv[0];\n}\n\nstatic int should_reverse_bytes", "memcpy model|pointer|postcondition|deallocated")])
+unit("lib.buffer.push", "buffer/push, every buffer size: arity >= 1; a number pushes its low byte, any other argument is fetched as a byte sequence and appended (the buffer itself contributes its content at that moment); exact new length and content in argument order; prefix unchanged; raises instead of exceeding INT32_MAX; foreign memory never reallocated; returns buffer",
+     "h_buffer_push", cf("cfun_buffer_push"), cls="bounded", bound=PUSHB, tier="thorough", timeout=600,
+     assumes=BA + [SELFDOM], **dict(PS, unwindset=dict(B["unwindset"], **{"buffer_push_impl.0": 4})), functions=["cfun_buffer_push", "buffer_push_impl", "janet_buffer_push_bytes", "janet_buffer_push_u8", "janet_buffer_ensure", "janet_buffer_extra"],
+     mutants=[mut("starts-at-slot-0", "buffer.c", "    buffer_push_impl(buffer, argv, 1, argc);\n    return argv[0];", "    buffer_push_impl(buffer, argv, 0, argc);\n    return argv[0];", "postcondition|byte view requested|unwind"),
+              mut("stale-view-after-growth", "buffer.c", "                janet_buffer_ensure(buffer, buffer->count + view.len, 2);\n                view.bytes = buffer->data;\n            }\n            janet_buffer_push_bytes(buffer, view.bytes, view.len);\n        }\n    }\n}",
+                  "                janet_buffer_ensure(buffer, buffer->count + view.len, 2);\n            }\n            janet_buffer_push_bytes(buffer, view.bytes, view.len);\n        }\n    }\n}", "memcpy model|pointer|postcondition|deallocated")])
 json.dump({"defaults": {"props": ["C17"], "mode": "dfcc", "timeout": 120, "object_bits": 8, "checks": CHECKS}, "units": units},
           open(os.path.join(V, "units", "C17_lib.json"), "w"), indent=1)
 print(len(units), "units")
